@@ -20,6 +20,7 @@ def run(rep):
     e3(rep, w)
     e4(rep, w)
     e5(rep, w)
+    e6(rep, w)
     c04.b3(rep, w)
 
 
@@ -241,3 +242,12 @@ def e5(rep, w):
     h = w.require_fn('yarel::vm::Vm::format_string_impl', 'C05')
     r.check(any((callee_name(t) or '') in ('yarel::vm::Vm::poke', 'yarel::vm::Vm::push') for _, t in h.calls()), 'format_string_impl replaces the operand with its text',
             'format_string_impl no longer stores the rendered text back on the stack', h.loc())
+
+
+def e6(rep, w):
+    import c13
+    r = rep.rule('E6', 'index and range operands are classified as integers the same way everywhere (one helper), with +-inf integral and NaN not', floor=1)
+    c13.validate_integer_shape(r, w, 'C05')
+    # every consumer of a program-supplied index / range bound goes through that helper
+    users = sorted({f.path for (f, bi, t) in c01.callers_of(w, 'yarel::utils::validate_integer')})
+    r.check(len(users) >= 2, 'validate_integer is the shared classifier (%d callers)' % len(users), 'validate_integer has %d callers' % len(users))
